@@ -10,7 +10,7 @@ from fractions import Fraction
 
 import numpy as np
 
-from .. import contracts, gen, geom
+from .. import aging, contracts, gen, geom
 
 PROPERTY = "C04"
 RULE = ("G-poly: certified-simple polygons (star-shaped, comb, spiral, lattice, convex incl. axis-aligned edges), 3-40 "
@@ -29,7 +29,7 @@ REQUIRED_MONITORS = ["Polygon.area", "Polygon.signed_area", "Polygon.perimeter",
                      "Polygon.planar_moments_inertia(xy,+z)", "Polygon.polar_moment_inertia", "Polygon.inertia_tensor",
                      "lattice-exact"]
 REQUIRED_CLASSES = ["orient:cw", "orient:ccw", "plane:tilted", "plane:xy", "kind:comb", "kind:star", "kind:lattice",
-                    "kind:convex", "kind:spiral"]
+                    "kind:convex", "kind:spiral", "history:aged-object"]
 
 
 def ncases(tier):
@@ -171,6 +171,16 @@ def run_case(i, rng, rec, tier, state):
             sgn = 1 if A > 0 else -1
             rec.check("lattice-exact:orientation", (float(np.sign(_q(s, "signed_area"))) == sgn), "Polygon.signed_area/lattice-sign",
                       lambda: _wit(s))
+    # one case in four goes on with the same object (whatever it memoised during the reads above is now at stake): moved,
+    # resized through the public setters, to_hoomd, then read again; the postconditions judge against the current vertices
+    if i % 4 == 2:
+        hist = aging.age(s, rng, reads=False, inplane=not c["tilted"])
+        rec.cls("history:aged-object")
+        for m in MEMBERS:
+            try:
+                getattr(s, m)
+            except Exception as e:
+                rec.violation("Polygon." + m, f"Polygon.{m}/raises-after-history-{type(e).__name__}", _wit(s, exc=repr(e), history=hist))
     nontriv = (not c["ccw"]) or (not c["convex"]) or c["tilted"] or c["normal_mode"] == "minus"
     if nontriv:
         rec.nontriv(np.asarray(s.vertices), np.asarray(s.normal))
